@@ -4,7 +4,7 @@ cd "$(dirname "$0")/.." || exit 2
 fail=0
 for d in seeded/*/; do
   id=$(basename $d); prop=$(python3 -c "import json;print(json.load(open('$d/meta.json'))['property'])")
-  line=$(tools/try_mutant.sh $d $prop | head -1)
+  tier=$(python3 -c "import json;print(json.load(open('$d/meta.json')).get('tier','quick'))"); arg=$prop; [ $tier = thorough ] && arg=$prop:thorough; line=$(tools/try_mutant.sh $d $arg | head -1)
   echo "$id: $line"
   case "$line" in *exit=1*) ;; *) fail=1; echo "   NOT CAUGHT";; esac
 done
